@@ -282,6 +282,10 @@ def run(ctx):
     ctx.rule("R12.6", "outgoing calls: an option is split off only when it has the option's type; any other parameter - including one merely named like an option - reaches the service", floor=150)
     split_table(ctx, program, "R12.6")
 
+    ctx.rule("R12.14", "a @service name that Home Assistant files under one of the integration's own services (names are lower-cased: pyscript.Reload is pyscript.reload) is refused "
+             "by both subsystems; other names are accepted", floor=10)
+    builtin_name_table(ctx, program, "R12.14")
+
     ctx.rule("R12.5", "both subsystems reject the built-in service names", floor=2)
     for uid in ("eval.py::EvalFunc.trigger_init", "decorators/service.py::ServiceDecorator.validate"):
         f = program.func(uid)
@@ -569,3 +573,41 @@ def response_only_rule(ctx, program, rid):
                 bad = f"the call is made with options { {kk: repr(vv) for kk, vv in got.items()} }: the response is not requested, the script gets None instead of the function's result"
         ctx.check(bool(ex) and bad is None, rid, uid, f"response-only service {label}", msg=f"script call of a response-only service {label}: {bad or 'no exit'}", key=f"response only {label[:30]}",
                   node=program.func(uid), rel="function.py")
+
+
+def builtin_name_table(ctx, program, rid):
+    """Both subsystems' @service validation interpreted on names that Home Assistant would file under the integration's own services (it lower-cases service names)."""
+    from .c08 import legacy_grouping_table  # noqa: F401  (same harness conventions)
+    glob = {"TRIG_SERV_DECORATORS": ListV(tuple(Const(x) for x in ("service", "state_trigger", "event_trigger", "time_trigger", "mqtt_trigger", "webhook_trigger", "state_active",
+                                                                   "time_active", "task_unique")), "set"),
+            "DOMAIN": Const("pyscript"), "SERVICE_RELOAD": Const("reload"), "SERVICE_JUPYTER_KERNEL_START": Const("jupyter_kernel_start")}
+    for name, conflicts in (("pyscript.reload", True), ("pyscript.Reload", True), ("pyscript.JUPYTER_KERNEL_START", True), ("pyscript.reload2", False), ("other.fine", False)):
+        # legacy
+        luid = "eval.py::EvalFunc.trigger_init"
+        pol = FlowPolicy(program, events=["Function.service_register"], may_raise_all=False, cancel=False, globals_=glob,
+                         summaries={"trig_ctx.get_name": lambda i, n, a, k, c, o: [(c, Const("file.x"))], "trig_ctx.trigger_register": lambda i, n, a, k, c, o: [(c, Const(False))],
+                                    "async_set_service_schema": lambda i, n, a, k, c, o: [(c, Const(None))], "self.global_ctx.set_logger_name": lambda i, n, a, k, c, o: [(c, Const(None))],
+                                    "logging.getLogger": lambda i, n, a, k, c, o: [(c, Sym(("logger",)))]})
+        pol.loop_unroll = 3
+        dl = ListV((ListV((Const("service"), ListV((Const(name),), "list"), Const(None)), "list"),), "list")
+        heap = {"self.trigger_service": ListV((), "set"), "self.trigger": ListV((), "list"), "self.decorators": dl, "self.doc_string": Const("doc"), "self.global_ctx": ObjV("g", "GlobalContext")}
+        ex = exits(run_flow(program, luid, pol, args={"self": ObjV("self", "EvalFunc"), "trig_ctx": ObjV("tctx", "GlobalContext"), "func_name": Const("f")}, heap=heap))
+        regs = sum(1 for k, c, d in ex for e in c.trace if e[0] == "call" and e[1] == "Function.service_register")
+        refused = bool(ex) and all(k == "raise" for k, c, d in ex) and regs == 0
+        ctx.check(refused == conflicts, rid, luid, f"legacy @service('{name}')",
+                  msg=f"legacy @service('{name}'): " + ("accepted and registered" if not refused else "refused") + f", specified {'refused' if conflicts else 'accepted'}: Home Assistant lower-cases "
+                  "service names, so this name replaces the integration's own service (and removing the function removes the built-in)", key=f"builtin name legacy {name}", node=program.func(luid), rel="eval.py")
+        # new subsystem
+        nuid = "decorators/service.py::ServiceDecorator.validate"
+        pol2 = FlowPolicy(program, may_raise_all=False, cancel=False, globals_=glob,
+                          summaries={"super().validate": lambda i, n, a, k, c, o: [(c, Const(None))], "ast.get_docstring": lambda i, n, a, k, c, o: [(c, Const("doc"))],
+                                     "typing.cast": lambda i, n, a, k, c, o: [(c, a[1] if len(a) > 1 else Const(None))]})
+        pol2.loop_unroll = 3
+        heap2 = {"self.args": ListV((Const(name),), "list"), "self.dm": ObjV("dm", "FunctionDecoratorManager"), "dm.func_name": Const("f"), "dm.eval_func": ObjV("ef", "EvalFunc"),
+                 "ef.func_def": ObjV("fd", "FunctionDef"), "fd.name": Const("f")}
+        ex2 = exits(run_flow(program, nuid, pol2, args={"self": ObjV("self", "ServiceDecorator")}, heap=heap2))
+        refused2 = bool(ex2) and all(k == "raise" and getattr(c.env.get("$exc"), "cls", "") == "SyntaxError" for k, c, d in ex2)
+        accepted2 = bool(ex2) and all(k == "return" for k, c, d in ex2)
+        ctx.check((refused2 if conflicts else accepted2), rid, nuid, f"new subsystem @service('{name}')",
+                  msg=f"new subsystem @service('{name}'): exits {[d for k, c, d in ex2]}, specified {'refused (SyntaxError)' if conflicts else 'accepted'}", key=f"builtin name new {name}",
+                  node=program.func(nuid), rel="decorators/service.py")
